@@ -381,9 +381,11 @@ def main(argv):
         cov["coqchk"] = coqchk_out
     ev = dict(property_id=pid, tier=tier, seed=seed, level=cfg.get("level", "proof"), coverage=cov,
               assumptions=cfg.get("assumptions", []), wall_s=round(wall, 2), violations=len(violations))
-    os.makedirs(os.path.join(ROOT, "evidence"), exist_ok=True)
+    # evidence/<id>.json; redirected (VERIF_EVIDENCE_DIR) only when trying seeded changes in a scratch worktree
+    evdir = os.environ.get("VERIF_EVIDENCE_DIR") or os.path.join(ROOT, "evidence")
+    os.makedirs(evdir, exist_ok=True)
     if not a.replay:
-        json.dump(ev, open(os.path.join(ROOT, "evidence", pid + ".json"), "w"), indent=1, default=str)
+        json.dump(ev, open(os.path.join(evdir, pid + ".json"), "w"), indent=1, default=str)
 
     # ---------------------------------------------------------------- verdict
     for l in known_lines:
